@@ -366,6 +366,8 @@ class Inliner(object):
         if not isinstance(st, (ast.Return, ast.Assign, ast.Expr, ast.AugAssign)) or getattr(st, 'value', None) is None:
             return None
         top = st.value
+        if isinstance(top, (ast.Lambda, ast.ListComp, ast.SetComp, ast.DictComp, ast.GeneratorExp, ast.IfExp, ast.BoolOp)):
+            return None              # the value itself is a loop / a conditional: what it calls runs per element, or not at all
         nested = []
         for n in ast.walk(top):
             if n is top:
